@@ -208,4 +208,32 @@ theorem C15_reads_after_edits (w : World F) (h : List (Op D)) (hn : noFit h = tr
 example : noFit ([.setParam "dl__n_delays_state" 4, .read (0 : Nat), .clone] : List (Op Nat)) = true := rfl
 end snapshot
 
+section readval
+variable {D F R : Type} (Fit : Params → D → Bool → F) (Read : F → D → R)
+
+/-- a read-only call (`transform`, `lift*`, `predict*`, …) of instance `a` on array `i`: a function of the fitted state
+and of the array's CURRENT contents -/
+def pread (s : Proc D F) (a i : Nat) : Option R :=
+  match s.insts[a]?, s.heap[i]? with
+  | some w, some d => w.fitted.map fun f => Read f d
+  | _, _ => none
+
+/-- **reads are by value of the current contents**: after the caller has overwritten array `i` in place (the same
+object, refilled as a buffer), a read of it answers for the NEW contents - nothing may be remembered per array object -/
+theorem C15_read_by_value (s : Proc D F) (a i : Nat) (w : World F) (d : D) (ha : s.insts[a]? = some w)
+    (hi : i < s.heap.length) :
+    pread Read (pstep Fit s (.overwrite i d)) a i = w.fitted.map fun f => Read f d := by
+  unfold pread
+  rw [pstep_overwrite_insts, ha, pstep_overwrite_heap Fit s i d hi]
+
+/-- … and an overwrite of ANOTHER array, or a read in between, changes no answer -/
+theorem C15_read_other_array (s : Proc D F) (a i j : Nat) (d : D) (hne : i ≠ j) :
+    pread Read (pstep Fit s (.overwrite j d)) a i = pread Read s a i := by
+  unfold pread
+  rw [pstep_overwrite_insts]
+  simp only [pstep]
+  rw [modifyAt_get_ne _ j i s.heap hne]
+
+end readval
+
 end Pk.C15
